@@ -214,6 +214,20 @@ func odtAlphabet() []odtKind {
 			xt := &xTable{3, 2, []xCell{{0, 0, 2, 1, pa}, {0, 1, 1, 1, pb}, {1, 1, 1, 1, pc}, {2, 0, 1, 1, pd}, {2, 1, 1, 1, pe}}}
 			return []odtw.Block{t}, []xBlock{{kind: kTable, tbl: xt, feat: "rowspan"}}
 		}},
+		{"trs3", []string{"rowspan"}, func(g *gen, o odtOpt) ([]odtw.Block, []xBlock) {
+			// row span of three rows: [A rowspan 3][B] / [covered][C] / [covered][D] / [E][F]
+			a, pa := odtCell(g, 1)
+			a.RowSpan = 3
+			b, pb := odtCell(g, 1)
+			c, pc := odtCell(g, 1)
+			d, pd := odtCell(g, 1)
+			e, pe := odtCell(g, 1)
+			f, pf := odtCell(g, 1)
+			cov := odtw.Cell{Covered: true}
+			t := odtw.Table{Cols: 2, Rows: []odtw.Row{{Cells: []odtw.Cell{a, b}}, {Cells: []odtw.Cell{cov, c}}, {Cells: []odtw.Cell{cov, d}}, {Cells: []odtw.Cell{e, f}}}}
+			xt := &xTable{4, 2, []xCell{{0, 0, 3, 1, pa}, {0, 1, 1, 1, pb}, {1, 1, 1, 1, pc}, {2, 1, 1, 1, pd}, {3, 0, 1, 1, pe}, {3, 1, 1, 1, pf}}}
+			return []odtw.Block{t}, []xBlock{{kind: kTable, tbl: xt, feat: "rowspan"}}
+		}},
 		{"tblk", []string{"block-merge"}, func(g *gen, o odtOpt) ([]odtw.Block, []xBlock) {
 			// row 1: [A 2 columns x 2 rows][covered][B]
 			// row 2: [covered][covered][C]
